@@ -227,6 +227,24 @@ class Program:
         pkg_dir = os.path.join(self.root, PKG)
         if not os.path.isdir(pkg_dir):
             raise AnalysisError(f"package directory not found: {pkg_dir}")
+        # names defined (def) more than once anywhere in the package: a method with such a name may be overridden, the
+        # normaliser never splices it into its callers
+        import re as _re
+        from collections import Counter as _Counter
+        from . import normalize as _normalize
+        cnt = _Counter()
+        for dirpath, dirnames, filenames in os.walk(pkg_dir):
+            dirnames[:] = sorted(d for d in dirnames if d != "__pycache__")
+            for fn in sorted(filenames):
+                if fn.endswith(".py"):
+                    path = os.path.join(dirpath, fn)
+                    rel = os.path.relpath(path, self.root)
+                    txt = self.overlay.get(rel)
+                    if txt is None:
+                        with open(path, "r", encoding="utf-8") as fh:
+                            txt = fh.read()
+                    cnt.update(_re.findall(r"^\s*def\s+(\w+)\s*\(", txt, flags=_re.M))
+        _normalize.MULTI_DEF = frozenset(n for n, c in cnt.items() if c > 1)
         for dirpath, dirnames, filenames in os.walk(pkg_dir):
             dirnames[:] = sorted(d for d in dirnames if d != "__pycache__")
             for fn in sorted(filenames):
@@ -569,7 +587,8 @@ def _parse(path: str, rel: str, override: Optional[str]):
         key = None
     else:
         st = os.stat(path)
-        key = (path, st.st_mtime_ns, st.st_size)
+        from . import normalize as _nz
+        key = (path, st.st_mtime_ns, st.st_size, hash(getattr(_nz, "MULTI_DEF", None)))
         hit = _PARSE_CACHE.get(key)
         if hit is not None:
             return hit
